@@ -7,6 +7,7 @@ fn run_cmd(cmd: &str, args: &Args) -> String {
         "dtp" => dt::cmd_dtp(args),
         "doc" => tree::cmd_doc(args),
         "val" => tree::cmd_val(args),
+        "docf" => tree::cmd_docf(args),
         _ => "unknown-command".to_string(),
     }
 }
